@@ -10,10 +10,18 @@ pub struct PieceReader {
     pub pos: usize,
     pub pieces: Vec<usize>,
     pub idx: usize,
+    /// every k-th call reports a transient `Interrupted` (0 = never): io::copy, read_to_end and every
+    /// careful reader call again
+    pub intr: usize,
+    pub calls: usize,
 }
 
 impl std::io::Read for PieceReader {
     fn read(&mut self, buf: &mut [u8]) -> std::io::Result<usize> {
+        self.calls += 1;
+        if self.intr > 0 && self.calls % self.intr == 0 {
+            return Err(std::io::ErrorKind::Interrupted.into());
+        }
         if self.pos >= self.data.len() || buf.is_empty() {
             return Ok(0);
         }
@@ -127,7 +135,7 @@ pub fn build_boxed(case: &RespCase) -> tiny_http::ResponseBox {
                 Response::new(
                     StatusCode(st0),
                     ctor_headers,
-                    PieceReader { data: if case.with_data { vec![] } else { body.clone() }, pos: 0, pieces: case.pieces.clone(), idx: 0 },
+                    PieceReader { data: if case.with_data { vec![] } else { body.clone() }, pos: 0, pieces: case.pieces.clone(), idx: 0, intr: if case.body_seed % 5 == 0 { 2 + (case.body_seed as usize / 5) % 3 } else { 0 }, calls: 0 },
                     if case.declared { Some(case.body_len) } else { None },
                     rx,
                 ),
@@ -175,7 +183,7 @@ pub fn build_boxed(case: &RespCase) -> tiny_http::ResponseBox {
     if case.with_data {
         resp = resp
             .with_data(
-                PieceReader { data: body, pos: 0, pieces: case.pieces.clone(), idx: 0 },
+                PieceReader { data: body, pos: 0, pieces: case.pieces.clone(), idx: 0, intr: if case.body_seed % 5 == 0 { 2 + (case.body_seed as usize / 5) % 3 } else { 0 }, calls: 0 },
                 if case.declared { Some(case.body_len) } else { None },
             )
             .boxed();
